@@ -396,7 +396,7 @@ def extract(ctx):
     # Starting: a guard stopped before the last step of its creation
     r = Run(ctx, "dry-3", {"M1": "pm", "M2": "cal"}, stepped=True)
     try:
-        r.follow([["G", o["op"], o["f"]] for o in gcreate[:-1]])
+        r.follow([["G", o["op"], o["f"]] for o in gcreate[:2]])     # context file created, nothing else yet
         a = r.run_cmd("M1"); b = r.run_cmd("M2")
         if a and b:
             nodemap.setdefault(a["v"], b["v"])
@@ -647,7 +647,7 @@ def model_check(ctx, ext, known, quick):
             ("cleaners3", {"cleaners": ["C1", "C2", "C3"], "crash": ["running"], "ccrash": False, "after": True,
                            "drop": False}),
         ]
-    witnesses, reach, failed = {}, {}, []
+    witnesses, reach, failed, unpriv_only = {}, {}, [], {}
 
     def one(cname, cfgd):
         out = {"wit": [], "reach": None, "failed": [], "runs": []}
@@ -688,12 +688,20 @@ def model_check(ctx, ext, known, quick):
                 vp.record_tlc(ctx, nm, res)
             for w in out["wit"]:
                 s = tuple(w[0])
+                if not cfgd.get("priv", True):
+                    # schedules of an unprivileged observer cannot be replayed by this (root) harness
+                    unpriv_only.setdefault(s, cname)
+                    continue
                 if s not in witnesses or len(w[1]) < len(witnesses[s][0]):
                     witnesses[s] = (w[1], cname, cfgd)
             if out["reach"] is not None:
                 reach[cname] = (out["reach"], cfgd)
             for inv in out["failed"]:
                 failed.append((cname, inv))
+    for s, cname in unpriv_only.items():
+        if s not in witnesses:
+            ctx.note(f"signature {sig_str(s)} is reachable only for an unprivileged observer (configuration {cname}); it "
+                     f"cannot be replayed by this harness, which runs as root, and is not reported")
     return witnesses, reach, failed
 
 
@@ -966,8 +974,7 @@ def node_level(ctx):
     jobs = []
     for when, gmax in (("shutdown", 10), ("startup", 12)):
         for g in range(0, gmax):
-            ms = range(0, 13) if (not ctx.quick or when == "shutdown") else (0, 4, 8, 11)
-            for m in ms:
+            for m in range(0, 13):
                 jobs.append((f"{when[:2]}-{g}-{m}", when, g, m))
     runs = []
     with concurrent.futures.ThreadPoolExecutor(max_workers=10) as ex:
